@@ -1564,6 +1564,33 @@ func (p *Posix) CompleteMultipartUpload(ctx context.Context, input *s3.CompleteM
 		}
 	}
 
+	// compare the provided object checksum before anything is changed
+	if checksums.Type != "" {
+		var sum string
+		switch checksums.Type {
+		case types.ChecksumTypeComposite:
+			sum = compositeChecksumRdr.Sum()
+		case types.ChecksumTypeFullObject:
+			sum = hashRdr.Sum()
+		}
+		var provided *string
+		switch checksumAlgorithm {
+		case types.ChecksumAlgorithmCrc32:
+			provided = input.ChecksumCRC32
+		case types.ChecksumAlgorithmCrc32c:
+			provided = input.ChecksumCRC32C
+		case types.ChecksumAlgorithmSha1:
+			provided = input.ChecksumSHA1
+		case types.ChecksumAlgorithmSha256:
+			provided = input.ChecksumSHA256
+		case types.ChecksumAlgorithmCrc64nvme:
+			provided = input.ChecksumCRC64NVME
+		}
+		if provided != nil && *provided != sum {
+			return nil, s3err.GetChecksumBadDigestErr(checksumAlgorithm)
+		}
+	}
+
 	upiddir := filepath.Join(objdir, uploadID)
 
 	userMetaData := make(map[string]string)
@@ -2826,23 +2853,7 @@ func (p *Posix) PutObject(ctx context.Context, po s3response.PutObjectInput) (s3
 		return s3response.PutObjectOutput{}, s3err.GetAPIError(s3err.ErrExistingObjectIsDirectory)
 	}
 
-	// if the versioninng is enabled first create the file object version
-	if p.versioningEnabled() && vStatus != "" && err == nil {
-		var isVersionIdMissing bool
-		if p.isBucketVersioningSuspended(vStatus) {
-			vIdBytes, err := p.meta.RetrieveAttribute(nil, *po.Bucket, *po.Key, versionIdKey)
-			if err != nil && !errors.Is(err, meta.ErrNoSuchKey) {
-				return s3response.PutObjectOutput{}, fmt.Errorf("get object versionId: %w", err)
-			}
-			isVersionIdMissing = len(vIdBytes) == 0
-		}
-		if !isVersionIdMissing {
-			_, err := p.createObjVersion(*po.Bucket, *po.Key, d.Size(), acct)
-			if err != nil {
-				return s3response.PutObjectOutput{}, fmt.Errorf("create object version: %w", err)
-			}
-		}
-	}
+	objExists := err == nil
 	if errors.Is(err, syscall.ENAMETOOLONG) {
 		return s3response.PutObjectOutput{}, s3err.GetAPIError(s3err.ErrKeyTooLong)
 	}
@@ -2908,6 +2919,28 @@ func (p *Posix) PutObject(ctx context.Context, po s3response.PutObjectInput) (s3
 		// fewer bytes than declared: the preallocated file must not be
 		// published zero padded
 		return s3response.PutObjectOutput{}, s3err.GetAPIError(s3err.ErrIncompleteBody)
+	}
+
+	// if the versioninng is enabled create the file object version of the
+	// object that is about to be replaced; only now that the new body has
+	// been received and verified, so that a refused upload leaves no copy
+	if p.versioningEnabled() && vStatus != "" && objExists {
+		var isVersionIdMissing bool
+		if p.isBucketVersioningSuspended(vStatus) {
+			vIdBytes, err := p.meta.RetrieveAttribute(nil, *po.Bucket, *po.Key, versionIdKey)
+			if err != nil && !errors.Is(err, meta.ErrNoSuchKey) {
+				return s3response.PutObjectOutput{}, fmt.Errorf("get object versionId: %w", err)
+			}
+			isVersionIdMissing = len(vIdBytes) == 0
+		}
+		// the object may have been replaced while the body was received
+		cur, err := os.Stat(name)
+		if !isVersionIdMissing && err == nil && !cur.IsDir() {
+			_, err := p.createObjVersion(*po.Bucket, *po.Key, cur.Size(), acct)
+			if err != nil {
+				return s3response.PutObjectOutput{}, fmt.Errorf("create object version: %w", err)
+			}
+		}
 	}
 
 	dir := filepath.Dir(name)
